@@ -5,11 +5,12 @@ H = Path(__file__).resolve().parent
 sys.path.insert(0, str(H))
 props = [json.loads(l) for l in (H.parent / "properties.jsonl").read_text().splitlines() if l.strip()]
 NA = json.loads((H / "not_applicable.json").read_text())
+READY = set(json.loads((H / "ready.json").read_text()))
 checks, na = [], []
 for p in props:
     pid = p["id"]
     f = H / "props" / f"{pid.lower()}.py"
-    if f.exists() and pid not in NA.get("disabled", {}):
+    if f.exists() and pid in READY:
         m = importlib.import_module(f"props.{pid.lower()}")
         M = m.META
         checks.append({
